@@ -501,7 +501,8 @@ def add_edge_templates(spec, rnd, frac=0.6, n_templates=None, names='plain', mix
                 out = 'm'
         opn = f'eop{i}'
         X, G = E.var(xin), E.var(g)
-        consts = {g: ['const', vals.new()]}
+        # (sometimes declared with an integer default, as a YAML `g: 2` yields; the per-edge values are floats all the same)
+        consts = {g: ['const', vals.new() if rnd.random() < 0.55 else rnd.choice([1, 2, 3])]}
         if shape == 'lin':
             eqs = [['alg', out, E.mul(G, X)]]
         elif shape == 'sat':
